@@ -893,10 +893,10 @@ func c02f(c *Ctx) {
 	// Signature
 	sigOK := false
 	if sg := compositeField(info, rsp, "Signature", -1); sg != nil {
-		if ds, ok := f.IsCallResult(sg, 0, Callee{pkgCtlog, "", "digitallySign"}); ok && len(ds.Args) == 2 {
-			keyOK := f.IsFieldPathOf(ds.Args[0], func(o types.Object) bool { return o == recv }, "c", "Key")
+		if ds, ok := f.IsCallResult(sg, 0, Callee{pkgCtlog, "", "digitallySign"}); ok && argByName(info, ds, "k") != nil && argByName(info, ds, "msg") != nil {
+			keyOK := f.IsFieldPathOf(argByName(info, ds, "k"), func(o types.Object) bool { return o == recv }, "c", "Key")
 			msgOK := false
-			if mc, ok := ast.Unparen(f.ResolveDeep(ds.Args[1]).E).(*ast.CallExpr); ok && matchCallee(info, mc, Callee{pkgRoot, "LogEntry", "MerkleTreeLeaf"}) {
+			if mc, ok := ast.Unparen(f.ResolveDeep(argByName(info, ds, "msg")).E).(*ast.CallExpr); ok && matchCallee(info, mc, Callee{pkgRoot, "LogEntry", "MerkleTreeLeaf"}) {
 				if sel, ok := ast.Unparen(mc.Fun).(*ast.SelectorExpr); ok && objOf(info, sel.X) == seqObj {
 					msgOK = true
 				}
